@@ -17,6 +17,8 @@ type NodeSpec struct {
 	ID     string // node id it is registered under
 	Typ    el.NodeType
 	Script Script
+	// CloseFails: the node's Close reports an error (whoever removes it must still remove it)
+	CloseFails bool
 }
 
 // HistOp is one step of a registration history.
@@ -98,6 +100,9 @@ func (sc *Scenario) Build(log *Log, gate *vrt.Gate) (*el.Broker, map[string]*Nod
 	objs := map[string]*Node{}
 	for _, ns := range sc.Nodes {
 		objs[ns.Obj] = NewNode(log, ns.Obj, ns.Typ, ns.Script, gate)
+		if ns.CloseFails {
+			objs[ns.Obj].CloseErr = fmt.Errorf("close of %s fails", ns.Obj)
+		}
 	}
 	ctx := context.Background()
 	for _, h := range sc.History {
@@ -114,7 +119,11 @@ func (sc *Scenario) Build(log *Log, gate *vrt.Gate) (*el.Broker, map[string]*Nod
 		case "rmpipe":
 			err = b.RemovePipeline(el.EventType(h.Type), el.PipelineID(h.ID))
 		case "rmpipenodes":
-			_, err = b.RemovePipelineAndNodes(ctx, el.EventType(h.Type), el.PipelineID(h.ID))
+			var removed bool
+			removed, err = b.RemovePipelineAndNodes(ctx, el.EventType(h.Type), el.PipelineID(h.ID))
+			if removed {
+				err = nil // a node's Close may have complained: the removal itself took place
+			}
 		case "rmnode":
 			err = b.RemoveNode(ctx, el.NodeID(h.ID))
 		}
